@@ -72,6 +72,9 @@ func (this *Addr) Deserialization(source *common.ZeroCopySource) error {
 		this.NodeAddrs = append(this.NodeAddrs, addr)
 	}
 
+	if count > uint64(len(this.NodeAddrs)) {
+		return io.ErrUnexpectedEOF
+	}
 	if count > comm.MAX_ADDR_NODE_CNT {
 		count = comm.MAX_ADDR_NODE_CNT
 	}
